@@ -13,6 +13,21 @@
 //! The oracle is the property statement itself: no panic, save returns Err, delivered bytes are a prefix of the output
 //! of the healthy save, and a later save of the same document value loads to the same content.
 //!
+//! Family of document histories ("the same document" is a value with a past, and "a later save" is any of the saves the
+//! property quantifies over, plain and incremental):
+//!   origin         built: the document value was built in memory (never saved, never loaded)
+//!                  own: it was loaded from the file lopdf itself writes for it
+//!                  foreign: it was loaded from a file of another producer (independent writer below: comment line before
+//!                           every object, spaces inside dictionaries and arrays, blank line after endobj, so that no
+//!                           offset of the file coincides with an offset of lopdf's output)
+//!                  revised: it was loaded from a file of two revisions (base + incremental update holding the objects)
+//!   later save     plain: save_to of the same value to a healthy sink (every origin)
+//!                  update: the same value handed to IncrementalDocument::create_from together with the bytes it was
+//!                          loaded from, one object added, saved to a healthy sink (origins with a file)
+//!                  retry: the same IncrementalDocument saved again (failed save was an incremental save)
+//! The later save is valid iff the file loads to the content the document had before the failed save (plus the added
+//! object for an update; an update must also start with the original bytes).
+//!
 //! Family of documents: gen::docs, plus a family in which dictionary KEYS range over the name alphabet (gen::docs only
 //! uses ASCII keys although keys are names, i.e. arbitrary byte strings) in every place a dictionary can occur.
 use crate::c03::{obj_from_json, obj_json, spec_from_json};
@@ -22,6 +37,7 @@ use crate::sinks::{Mode, Sink};
 use lopdf::{Document, IncrementalDocument, Object, Stream};
 use serde_json::{json, Value};
 use std::cell::RefCell;
+use std::collections::HashSet;
 use std::io::Write;
 use std::sync::atomic::{AtomicUsize, Ordering};
 use std::sync::Mutex;
@@ -102,6 +118,129 @@ fn case_json(c: &Case) -> Value {
     json!({"xref_stream": s.xref_stream, "version": s.version, "slack": s.max_id_slack, "extra_trailer": s.extra_trailer,
            "objects": s.objects.iter().map(|(id, o)| json!({"id": id.0, "gen": id.1, "obj": obj_json(o)})).collect::<Vec<_>>()})
 }
+
+// ---------------------------------------------------------------------------------------------------------------------
+// where the document value comes from
+
+#[derive(Clone, Copy, PartialEq, Debug)]
+pub enum Origin { Built, Own, Foreign, Revised }
+
+impl Origin {
+    fn tag(self) -> &'static str { match self { Origin::Built => "built", Origin::Own => "own", Origin::Foreign => "foreign", Origin::Revised => "revised" } }
+    fn from_tag(t: &str) -> Origin { match t { "own" => Origin::Own, "foreign" => Origin::Foreign, "revised" => Origin::Revised, _ => Origin::Built } }
+    fn words(self) -> &'static str {
+        match self {
+            Origin::Built => "document built in memory",
+            Origin::Own => "document loaded from the file lopdf writes for it",
+            Origin::Foreign => "document loaded from another producer's file (comment before every object, spaces inside dictionaries)",
+            Origin::Revised => "document loaded from a file of two revisions (base + incremental update)",
+        }
+    }
+}
+
+fn put_name(out: &mut Vec<u8>, n: &[u8]) {
+    out.push(b'/');
+    for &b in n {
+        if (0x21..0x7f).contains(&b) && !b"()<>[]{}/%#".contains(&b) { out.push(b); } else { out.extend_from_slice(format!("#{:02X}", b).as_bytes()); }
+    }
+}
+
+fn put_dict(out: &mut Vec<u8>, d: &lopdf::Dictionary) {
+    out.extend_from_slice(b"<< ");
+    for (k, v) in d.iter() { put_name(out, k); out.push(b' '); put_obj(out, v); out.push(b' '); }
+    out.extend_from_slice(b">>");
+}
+
+/// another producer's spelling of an object (ISO 32000-1 7.3), written without any code of lopdf
+fn put_obj(out: &mut Vec<u8>, o: &Object) {
+    match o {
+        Object::Null => out.extend_from_slice(b"null"),
+        Object::Boolean(b) => out.extend_from_slice(if *b { b"true" } else { b"false" }),
+        Object::Integer(i) => out.extend_from_slice(i.to_string().as_bytes()),
+        Object::Real(r) => { let t = format!("{}", r); out.extend_from_slice(t.as_bytes()); if !t.contains('.') { out.extend_from_slice(b".0"); } }
+        Object::Name(n) => put_name(out, n),
+        Object::String(b, lopdf::StringFormat::Literal) => {
+            out.push(b'(');
+            for &c in b {
+                match c { b'\\' | b'(' | b')' => { out.push(b'\\'); out.push(c); } 0x20..=0x7e => out.push(c), _ => out.extend_from_slice(format!("\\{:03o}", c).as_bytes()) }
+            }
+            out.push(b')');
+        }
+        Object::String(b, lopdf::StringFormat::Hexadecimal) => { out.push(b'<'); for c in b { out.extend_from_slice(format!("{:02x} ", c).as_bytes()); } out.push(b'>'); }
+        Object::Array(a) => { out.extend_from_slice(b"[ "); for x in a { put_obj(out, x); out.push(b' '); } out.push(b']'); }
+        Object::Dictionary(d) => put_dict(out, d),
+        Object::Stream(s) => {
+            let mut d = s.dict.clone();
+            d.set("Length", s.content.len() as i64);
+            put_dict(out, &d);
+            out.extend_from_slice(b"\nstream\r\n");
+            out.extend_from_slice(&s.content);
+            out.extend_from_slice(b"\r\nendstream");
+        }
+        Object::Reference(id) => out.extend_from_slice(format!("{} {} R", id.0, id.1).as_bytes()),
+    }
+}
+
+/// the file another producer writes for the document: same objects, trailer entries, version and cross-reference format
+fn foreign_file(d: &Document) -> Vec<u8> {
+    let xs = matches!(d.reference_table.cross_reference_type, lopdf::xref::XrefType::CrossReferenceStream);
+    let mut out = format!("%PDF-{}\n", d.version).into_bytes();
+    out.extend_from_slice(b"%\xE2\xE3\xCF\xD3\n% written by another producer\n");
+    // (object number, offset, generation)
+    let mut rows: Vec<(u32, usize, u16)> = vec![];
+    for (id, o) in &d.objects {
+        out.extend_from_slice(format!("% object {} follows\n", id.0).as_bytes());
+        rows.push((id.0, out.len(), id.1));
+        out.extend_from_slice(format!("{} {} obj\n", id.0, id.1).as_bytes());
+        put_obj(&mut out, o);
+        out.extend_from_slice(b"\nendobj\n\n");
+    }
+    let start = out.len();
+    let mut trailer = d.trailer.clone();
+    let sid = d.max_id + 1;
+    if xs { rows.push((sid, start, 0)); }
+    rows.sort();
+    trailer.set("Size", (if xs { sid + 1 } else { d.max_id + 1 }) as i64);
+    // runs of consecutive object numbers; object 0 heads the free list
+    let mut runs: Vec<Vec<(u32, usize, u16)>> = vec![vec![(0, 0, 65535)]];
+    for r in &rows {
+        let last = runs.last_mut().unwrap();
+        if last.last().unwrap().0 + 1 == r.0 { last.push(*r); } else { runs.push(vec![*r]); }
+    }
+    if xs {
+        let mut index = vec![];
+        let mut body = vec![];
+        for run in &runs {
+            index.push(Object::Integer(run[0].0 as i64));
+            index.push(Object::Integer(run.len() as i64));
+            for (n, off, g) in run {
+                body.push(if *n == 0 { 0 } else { 1 });
+                body.extend_from_slice(&(*off as u32).to_be_bytes());
+                body.extend_from_slice(&g.to_be_bytes());
+            }
+        }
+        trailer.set("Type", name(b"XRef"));
+        trailer.set("W", Object::Array(vec![Object::Integer(1), Object::Integer(4), Object::Integer(2)]));
+        trailer.set("Index", Object::Array(index));
+        out.extend_from_slice(format!("{} 0 obj\n", sid).as_bytes());
+        put_obj(&mut out, &Object::Stream(Stream::new(trailer, body)));
+        out.extend_from_slice(b"\nendobj\n");
+    } else {
+        out.extend_from_slice(b"xref\n");
+        for run in &runs {
+            out.extend_from_slice(format!("{} {}\n", run[0].0, run.len()).as_bytes());
+            for (n, off, g) in run { out.extend_from_slice(format!("{:010} {:05} {} \n", off, g, if *n == 0 { 'f' } else { 'n' }).as_bytes()); }
+        }
+        out.extend_from_slice(b"trailer\n");
+        put_dict(&mut out, &trailer);
+        out.push(b'\n');
+    }
+    out.extend_from_slice(format!("startxref\n{}\n%%EOF\n", start).as_bytes());
+    out
+}
+
+/// the object a later incremental update adds
+fn added_object() -> Object { Object::Dictionary(dict(vec![(b"Type", name(b"Annot")), (b"Contents", lit(b"note"))])) }
 
 // ---------------------------------------------------------------------------------------------------------------------
 // panics, usable from several threads (common::guarded swaps the process-wide hook on every call)
@@ -202,24 +341,58 @@ impl Write for FailingSink {
 
 type Saved = Result<Result<(), std::io::Error>, String>;
 
+/// the value a later save is made of
+enum Later { Plain(Document), Inc(IncrementalDocument) }
+
 struct Ctx<'a> {
     case: &'a Case,
     /// incremental save: bytes and loaded form of the previous revision
     base: Option<(Vec<u8>, Document)>,
+    /// origins with a file: the bytes the document was loaded from and the document as loaded
+    file: Option<(Vec<u8>, Document)>,
 }
 
 impl<'a> Ctx<'a> {
-    fn new(case: &'a Case, incremental: bool) -> Ctx<'a> {
-        let base = if incremental {
-            let base_spec = DocSpec { objects: vec![((1, 0), name(b"Base")), ((2, 0), lit(b"old"))], xref_stream: case.spec.xref_stream, version: "1.5".into(), extra_trailer: false, max_id_slack: 0 };
-            let mut bytes = vec![];
-            build(&base_spec).save_to(&mut bytes).unwrap();
-            let prev = Document::load_mem(&bytes).unwrap();
-            Some((bytes, prev))
-        } else { None };
-        Ctx { case, base }
+    fn base(case: &Case) -> (Vec<u8>, Document) {
+        let base_spec = DocSpec { objects: vec![((1, 0), name(b"Base")), ((2, 0), lit(b"old"))], xref_stream: case.spec.xref_stream, version: "1.5".into(), extra_trailer: false, max_id_slack: 0 };
+        let mut bytes = vec![];
+        build(&base_spec).save_to(&mut bytes).unwrap();
+        let prev = Document::load_mem(&bytes).unwrap();
+        (bytes, prev)
     }
-    fn save<W: Write>(&self, sink: &mut W) -> (Saved, Option<Document>) {
+    fn new(case: &'a Case, incremental: bool) -> Ctx<'a> {
+        Ctx { case, base: if incremental { Some(Ctx::base(case)) } else { None }, file: None }
+    }
+    /// Err: the file of this origin cannot be produced or does not load (then there is no document to speak of)
+    fn with_origin(case: &'a Case, incremental: bool, origin: Origin) -> Result<Ctx<'a>, String> {
+        let mut ctx = Ctx::new(case, incremental);
+        let bytes = match origin {
+            Origin::Built => return Ok(ctx),
+            Origin::Own => { let mut b = vec![]; match caught(|| build_case(case).save_to(&mut b)) { Ok(Ok(())) => b, other => return Err(format!("healthy save failed: {}", show(other))) } }
+            Origin::Foreign => foreign_file(&build_case(case)),
+            Origin::Revised => {
+                let two = Ctx::new(case, true);
+                let (r, s) = two.run(Mode::Healthy);
+                match r { Ok(Ok(())) => s.delivered, other => return Err(format!("healthy incremental save failed: {}", show(other))) }
+            }
+        };
+        match caught(|| Document::load_mem(&bytes)) {
+            Ok(Ok(d)) => { ctx.file = Some((bytes, d)); Ok(ctx) }
+            Ok(Err(e)) => Err(format!("the file does not load: {}", e)),
+            Err(p) => Err(format!("load panicked: {}", p)),
+        }
+    }
+    /// the content of the document before any save
+    fn content(&self) -> Document {
+        if let Some((_, prev)) = &self.base {
+            let mut e = prev.clone();
+            for (id, o) in &self.case.spec.objects { e.objects.insert((id.0 + 10, id.1), o.clone()); }
+            for (k, v) in &self.case.trailer { e.trailer.set(k.clone(), v.clone()); }
+            return e;
+        }
+        match &self.file { Some((_, d)) => d.clone(), None => build_case(self.case) }
+    }
+    fn save<W: Write>(&self, sink: &mut W) -> (Saved, Later) {
         match &self.base {
             Some((bytes, prev)) => {
                 let mut inc = IncrementalDocument::create_from(bytes.clone(), prev.clone());
@@ -228,12 +401,13 @@ impl<'a> Ctx<'a> {
                     inc.new_document.max_id = inc.new_document.max_id.max(id.0 + 10);
                 }
                 for (k, v) in &self.case.trailer { inc.new_document.trailer.set(k.clone(), v.clone()); }
-                (caught(|| inc.save_to(sink)), None)
+                let r = caught(|| inc.save_to(sink));
+                (r, Later::Inc(inc))
             }
             None => {
-                let mut d = build_case(self.case);
+                let mut d = match &self.file { Some((_, d)) => d.clone(), None => build_case(self.case) };
                 let r = caught(|| d.save_to(sink));
-                (r, Some(d))
+                (r, Later::Plain(d))
             }
         }
     }
@@ -246,13 +420,48 @@ impl<'a> Ctx<'a> {
 
 fn show(r: Saved) -> String { format!("{:?}", r.map(|x| x.map_err(|e| e.to_string()))) }
 
-pub fn check(case: &Case, incremental: bool, thorough: bool, rep: &mut Report) -> Option<(String, String, Value)> {
+fn loads_to(bytes: &[u8], content: &Document) -> Result<(), String> {
+    let loaded = match caught(|| Document::load_mem(bytes)) { Ok(Ok(l)) => l, Ok(Err(e)) => return Err(format!("load failed: {}", e)), Err(p) => return Err(format!("load panicked: {}", p)) };
+    crate::c01::compare(content, &loaded)
+}
+
+/// later save "update": the document goes to IncrementalDocument::create_from together with the bytes it was loaded from,
+/// one object is added, the update is saved to a healthy sink. `content` is what the document held before any save.
+fn later_update(original: &[u8], d: Document, content: &Document) -> Result<(), (String, String)> {
+    let now = d.xref_start;
+    let was = content.xref_start;
+    let made = caught(move || {
+        let mut inc = IncrementalDocument::create_from(original.to_vec(), d);
+        let id = inc.new_document.add_object(added_object());
+        let mut out = vec![];
+        let r = inc.save_to(&mut out);
+        (id, out, r)
+    });
+    let (id, out) = match made { Ok((id, out, Ok(()))) => (id, out), Ok((_, _, Err(e))) => return Err(("update-after-failure".into(), format!("save of the update failed: {}", e))), Err(p) => return Err(("update-after-failure".into(), format!("building or saving the update panicked: {}", p))) };
+    if !out.starts_with(original) { return Err(("update-after-failure".into(), format!("the update ({} bytes) does not start with the {} bytes of the original file (first difference at {})", out.len(), original.len(), first_diff(&out, original)))); }
+    let mut expected = content.clone();
+    if expected.objects.insert(id, added_object()).is_some() { return Err(("update-after-failure".into(), format!("the added object got the number {} {} of an object of the document", id.0, id.1))); }
+    loads_to(&out, &expected).map_err(|e| ("update-after-failure-loads".to_string(), format!("original file + update of one added object ({} {}): {} (Document::xref_start was {} when the document was loaded, the original file is {} bytes long, and it is {} at the time of the update)", id.0, id.1, e, was, original.len(), now)))
+}
+
+pub fn check(case: &Case, incremental: bool, origin: Origin, thorough: bool, rep: &mut Report) -> Option<(String, String, Value)> {
     let input = |mode: &str, n: usize| json!({"spec": case_json(case), "trailer": case.trailer.iter().map(|(k, v)| json!([hex(k), obj_json(v)])).collect::<Vec<_>>(),
-                                               "incremental": incremental, "mode": mode, "n": n});
-    let ctx = Ctx::new(case, incremental);
+                                               "incremental": incremental, "origin": origin.tag(), "mode": mode, "n": n});
+    let ctx = match Ctx::with_origin(case, incremental, origin) {
+        Ok(c) => c,
+        // no document of this origin: nothing to save (reading is the business of other properties)
+        Err(_) => { rep.case(false); return None; }
+    };
+    let content = ctx.content();
     let (r, reference) = ctx.run(Mode::Healthy);
     match r { Ok(Ok(())) => {}, other => return Some(("healthy-save".into(), show(other), input("healthy", 0))) }
     let full = reference.delivered;
+    // control of the later save "update": without any failed save in between (if that does not work for this document,
+    // which is the business of other properties, the failed save cannot be blamed and the update is left out)
+    let updatable = match &ctx.file {
+        Some((original, d)) => { rep.case(true); later_update(original, d.clone(), &content).is_ok() }
+        None => false,
+    };
     // 1. chunkings
     let ks: Vec<usize> = if thorough { (1..=9).chain([13, 64, 4096]).collect() } else { vec![1, 3, 19] };
     for k in ks {
@@ -265,6 +474,9 @@ pub fn check(case: &Case, incremental: bool, thorough: bool, rep: &mut Report) -
     }
     // 2. every failure offset x kind x granularity x persistence
     let step = if thorough || full.len() < 400 { 1 } else { 7 };
+    // later saves are a function of the value the failed save leaves behind: each distinct value (told apart by its Debug
+    // rendering, which shows every field) is put through the later saves once
+    let mut seen: HashSet<String> = HashSet::new();
     let mut n = 0;
     while n < full.len() {
         for f in Failing::all(n) {
@@ -282,13 +494,24 @@ pub fn check(case: &Case, incremental: bool, thorough: bool, rep: &mut Report) -
                 return Some(("delivered-is-prefix".into(), format!("the {} bytes delivered are not a prefix of the complete output ({} bytes): they differ from byte {} on, delivered {:?} where the complete output has {:?} ({}; {} call(s) failed; bytes sent after the reported failure were accepted)",
                     s.delivered.len(), full.len(), at, excerpt(&s.delivered, at), excerpt(&full, at), f.words(), s.failures), input(&f.tag(), n)));
             }
-            if let Some(mut d) = d {
-                // a later save of the same document value to a healthy sink gives a file that loads to the same content
-                if n % 5 == 0 {
+            if !seen.insert(match &d { Later::Plain(d) => format!("{:?}", d), Later::Inc(inc) => format!("{:?}", inc) }) { continue; }
+            rep.case(true);
+            // a later save of the same document value to a healthy sink gives a file that loads to the same content
+            let after = format!("after a save that failed at byte {} of {} ({}; {})", s.delivered.len(), full.len(), f.words(), origin.words());
+            match d {
+                Later::Plain(mut d) => {
+                    if let (true, Some((original, _))) = (updatable, &ctx.file) {
+                        rep.case(true);
+                        if let Err((ob, e)) = later_update(original, d.clone(), &content) { return Some((ob, format!("{} {}", e, after), input(&f.tag(), n))); }
+                    }
                     let mut again = vec![];
-                    match caught(|| d.save_to(&mut again)) { Ok(Ok(())) => {}, other => return Some(("save-again".into(), format!("second save failed: {}", show(other)), input(&f.tag(), n))) }
-                    let loaded = match caught(|| Document::load_mem(&again)) { Ok(Ok(l)) => l, Ok(Err(e)) => return Some(("save-again-loads".into(), format!("load failed: {}", e), input(&f.tag(), n))), Err(p) => return Some(("save-again-loads".into(), format!("load panicked: {}", p), input(&f.tag(), n))) };
-                    if let Err(e) = crate::c01::compare(&build_case(case), &loaded) { return Some(("save-again-loads".into(), e, input(&f.tag(), n))); }
+                    match caught(|| d.save_to(&mut again)) { Ok(Ok(())) => {}, other => return Some(("save-again".into(), format!("second save failed: {} {}", show(other), after), input(&f.tag(), n))) }
+                    if let Err(e) = loads_to(&again, &content) { return Some(("save-again-loads".into(), format!("{} {}", e, after), input(&f.tag(), n))); }
+                }
+                Later::Inc(mut inc) => {
+                    let mut again = vec![];
+                    match caught(|| inc.save_to(&mut again)) { Ok(Ok(())) => {}, other => return Some(("save-again".into(), format!("second save of the incremental document failed: {} {}", show(other), after), input(&f.tag(), n))) }
+                    if let Err(e) = loads_to(&again, &content) { return Some(("save-again-loads".into(), format!("incremental document saved again: {} {}", e, after), input(&f.tag(), n))); }
                 }
             }
         }
@@ -315,16 +538,18 @@ fn first_diff(a: &[u8], b: &[u8]) -> usize { a.iter().zip(b.iter()).position(|(x
 fn excerpt(b: &[u8], at: usize) -> String { String::from_utf8_lossy(&b[at.min(b.len())..(at + 16).min(b.len())]).into_owned() }
 
 pub fn sinks(thorough: bool) -> Report {
-    let mut rep = Report::new("documents: (a) every 3rd of gen::docs plus every document of gen::docs that holds a stream object (quick) / all of gen::docs (thorough); (b) dictionary keys over the name alphabet: key in {Name, empty name, 'A#B C/(d)%\\0\\xff\\r\\n' (the names of gen::leaves), Latin-1 'Caf\\xe9', UTF-8 'ete' with acute accents, lone \\x80, truncated 'K\\xc3'} x dictionary position {object dictionary, nested in a dictionary, inside an array, stream dictionary, trailer} x value kind {integer, literal string, the same name, array, dictionary with the same key, reference} (quick: one value kind per key and position, Latin square, 35 documents; thorough: all 210); all x both xref formats x plain+incremental. Failing sinks: every limit n in 0..len (stride 7 beyond 400 bytes in quick) x {hard error, zero-length write} x {the write crossing n is split at n and the next call fails, a write that does not fit below n is rejected whole} x {sink fails for good, sink fails one call and accepts every later call, (whole only) fixed-capacity sink that rejects exactly the calls that do not fit}; chunk sizes {1,3,19} (quick) / 1..9,13,64,4096; Interrupted at every sink call", false);
+    let mut rep = Report::new("documents: (a) every 3rd of gen::docs plus every document of gen::docs that holds a stream object (quick) / all of gen::docs (thorough); (b) dictionary keys over the name alphabet: key in {Name, empty name, 'A#B C/(d)%\\0\\xff\\r\\n' (the names of gen::leaves), Latin-1 'Caf\\xe9', UTF-8 'ete' with acute accents, lone \\x80, truncated 'K\\xc3'} x dictionary position {object dictionary, nested in a dictionary, inside an array, stream dictionary, trailer} x value kind {integer, literal string, the same name, array, dictionary with the same key, reference} (quick: one value kind per key and position, Latin square, 35 documents; thorough: all 210); all x both xref formats. Histories: every document x origin {built in memory (failing save: plain, or incremental over a two-object base file written by lopdf), loaded from the file lopdf itself writes for it, loaded from another producer's file (independent writer: comment line before every object, spaces inside dictionaries and arrays, #-escaped names, octal-escaped strings, CRLF around stream data, blank line after endobj; classic table in subsections or xref stream with W [1 4 2], after the document's format), loaded from a file of two revisions (the two-object base + lopdf's incremental update holding the objects at number+10)} (loaded origins: failing save plain; chunkings and Interrupted as for built documents) x later save {plain save_to of the same value: must load to the content the document had before the failed save; (loaded origins) incremental update: the same value and the bytes it was loaded from given to IncrementalDocument::create_from, one dictionary object added with add_object, saved to a healthy sink: must start with the original bytes and load to the original content plus the added object (left out for a document whose update does not work without any failed save either); (incremental failing save) the same IncrementalDocument saved again: must load to base content + objects}; later saves are run at every limit visited, once per distinct value the failed save leaves behind (values told apart by their Debug rendering). Failing sinks: every limit n in 0..len (stride 7 beyond 400 bytes in quick) x {hard error, zero-length write} x {the write crossing n is split at n and the next call fails, a write that does not fit below n is rejected whole} x {sink fails for good, sink fails one call and accepts every later call, (whole only) fixed-capacity sink that rejects exactly the calls that do not fit}; chunk sizes {1,3,19} (quick) / 1..9,13,64,4096; Interrupted at every sink call", false);
     let specs = docs(false);
     let stride = if thorough { 1 } else { 3 };
-    let mut work: Vec<(Case, bool)> = vec![];
+    let mut work: Vec<(Case, bool, Origin)> = vec![];
     for (k, s) in specs.iter().enumerate() {
         if k % stride != 0 && !holds_stream(s) { continue; }
-        for inc in [false, true] { work.push((Case { spec: s.clone(), trailer: vec![] }, inc)); }
+        for inc in [false, true] { work.push((Case { spec: s.clone(), trailer: vec![] }, inc, Origin::Built)); }
+        for origin in [Origin::Own, Origin::Foreign, Origin::Revised] { work.push((Case { spec: s.clone(), trailer: vec![] }, false, origin)); }
     }
     for c in key_docs(thorough) {
-        for inc in [false, true] { work.push((c.clone(), inc)); }
+        for inc in [false, true] { work.push((c.clone(), inc, Origin::Built)); }
+        for origin in [Origin::Own, Origin::Foreign, Origin::Revised] { work.push((c.clone(), false, origin)); }
     }
     // every work item is independent; results are folded in the order of the enumeration
     let threads = std::thread::available_parallelism().map(|n| n.get()).unwrap_or(4).min(16).min(work.len().max(1));
@@ -337,7 +562,7 @@ pub fn sinks(thorough: bool) -> Report {
                     let i = next.fetch_add(1, Ordering::SeqCst);
                     if i >= work.len() { break; }
                     let mut local = Report::new("", false);
-                    let f = check(&work[i].0, work[i].1, thorough, &mut local);
+                    let f = check(&work[i].0, work[i].1, work[i].2, thorough, &mut local);
                     results.lock().unwrap()[i] = Some((local.evaluations, local.nontrivial, f));
                 });
             }
@@ -359,5 +584,5 @@ pub fn replay(v: &Value) -> Result<(), String> {
     for e in v["trailer"].as_array().cloned().unwrap_or_default() { trailer.push((unhex(e[0].as_str().unwrap_or("")), obj_from_json(&e[1]))); }
     let case = Case { spec, trailer };
     let mut rep = Report::new("", false);
-    match with_hook(|| check(&case, v["incremental"].as_bool().unwrap_or(false), true, &mut rep)) { None => Ok(()), Some((o, d, _)) => Err(format!("{}: {}", o, d)) }
+    match with_hook(|| check(&case, v["incremental"].as_bool().unwrap_or(false), Origin::from_tag(v["origin"].as_str().unwrap_or("built")), true, &mut rep)) { None => Ok(()), Some((o, d, _)) => Err(format!("{}: {}", o, d)) }
 }
